@@ -379,6 +379,13 @@ def _check_split(case):
     shutil.rmtree(od, ignore_errors=True)
     dur = (N if nbig is None else nbig) / rate
     LAB = "L.%d" if dotted else "L%d"
+    if dotted == "unicode":     # labels that are canonically equivalent to one another but different strings (and not in normalisation form C)
+        UL = ("caf\u00e9", "cafe\u0301", "\u212b", "\u00c5", "A\u030a", "te\u0301")
+
+        class _L(str):
+            def __mod__(self, i):
+                return UL[i % len(UL)] + ("" if i < len(UL) else str(i))
+        LAB = _L()
     E = [(float((F(a) + off) / rate), float((F(b) - off) / rate), LAB % i) for i, (a, b) in enumerate(ivs)]
     O = [(a / rate, b / rate, "O%d" % i) for i, (a, b) in enumerate(OTHERS[oi])]
     P = [(t / rate, "P%d" % i) for i, t in enumerate(PTS[pi])]
@@ -532,6 +539,12 @@ def parts(tier):
             for flag in (False, True, "w"):
                 for ns in (None, "append", "append_no_i", "label"):
                     yield (2, 8, ivs, 0, 0, flag, False, ns, False, None, True)
+        # labels that differ only by Unicode normalisation form: one file per entry, named exactly after its label
+        for ivs in nonempty:
+            if len(ivs) >= 2:
+                for flag in (False, True):
+                    for ns in ("append", "append_no_i", "label"):
+                        yield (2, 8, ivs, 0, 0, flag, False, ns, False, None, "unicode")
         # the size axis: 9 .. 101 target entries (file numbering with one, two and three digits) on a longer recording
         for k in (9, 10, 11, 12, 100, 101):
             ivs = tuple((3 * i, 3 * i + 2) for i in range(k))
